@@ -524,3 +524,215 @@ def impl_files_odd(kind, ref_latin, with_merge):
     finally:
         shutil.rmtree(root, ignore_errors=True)
     return res
+
+
+# ---------------------------------------------------------------- sessions: ONE ContentComparer / ONE L10nLinter over a sequence of files
+
+def _leaf_map(rep):
+    """`toJSON()["details"]` as {path joined by "/": items}"""
+    return {"/".join(p): items for p, items in leaves(rep["details"], [], [])}
+
+
+def _show_items(items):
+    its = []
+    for it in items:
+        (cat, val), = it.items()
+        if cat in ("missingFile", "obsoleteFile"):
+            its.append("%s=r%s" % (cat, val))
+        else:
+            its.append("%s=%s" % (cat, show_data(val)))
+    return "|".join(its)
+
+
+def _show_lint(results):
+    return "ok " + "|".join("%d,%d,%s,%s" % (r["lineno"], r["column"], enc(r["level"]), enc(r["message"])) for r in results)
+
+
+def _ufffd_missing(fname, refp, l10p, items):
+    """oracle by construction, independent of every other file of the session: every localized string shared with the
+    reference whose text (`.all`) contains U+FFFD has an encoding warning among the details OF THIS FILE"""
+    try:
+        p = type(parser.getParser(fname))()
+        p.readFile(refp)
+        ref = p.parse()
+        p2 = type(parser.getParser(fname))()
+        p2.readFile(l10p)
+        l10n = p2.parse()
+    except RecursionError:
+        return []
+    msgs = [d.get("warning", "") for d in items if isinstance(d, dict) and isinstance(d.get("warning"), str)]
+    out, seen = [], set()
+    for e in l10n:
+        if isinstance(e, parser.Junk) or e.key in seen:
+            continue
+        seen.add(e.key)
+        k = e.key
+        if k in ref and not isinstance(ref[k], parser.Junk) and not isinstance(l10n[k], parser.Junk) and "�" in l10n[k].all:
+            want = "� in: %s" % (l10n[k].key,)
+            if not any(m.startswith(want) for m in msgs):
+                out.append(repr(k))
+    return out
+
+
+def impl_session(jobs, lint_refs):
+    """`jobs` = [[fmt, ref bytes (latin-1), l10n bytes, with_merge], …]: ONE `ContentComparer` (one unfiltered `Observer`)
+    compares the files f0/<name>, f1/<name>, … in this order, the way `compareProjects` drives it, in a process whose junk
+    counters start fresh; then ONE `L10nLinter.lint` call lints all localized files (`lint_refs[i]`: with its reference).
+    Per file: what the session reported for it (its leaf of `toJSON()["details"]`, the merge file), the same comparison by a
+    FRESH comparer started with the junk counters the session had at that point, the oracle by construction on the real
+    parser's entities, and the model's inputs."""
+    from impl.robust import junk_state, set_junk_state, entity_junk_clash, shape_errors_details
+    base = os.environ.get("VERIF_TMP") or tempfile.gettempdir()
+    root = tempfile.mkdtemp(prefix="clv5s-", dir=base)
+    res = {"jobs": []}
+    saved = (content_mod.shutil, content_mod.codecs)
+    xml_log, log = [], []
+    try:
+        J = []
+        for i, (fmt, ref_latin, l10n_latin, with_merge) in enumerate(jobs):
+            fname = FNAME.get(fmt) or {"ftl": "a.ftl", "android": "strings.xml"}[fmt]
+            rel = "f%d/%s" % (i, fname)
+            os.makedirs(os.path.join(root, "ref", "f%d" % i))
+            os.makedirs(os.path.join(root, "l10n", "f%d" % i))
+            refp, l10p = os.path.join(root, "ref", rel), os.path.join(root, "l10n", rel)
+            l10b = l10n_latin.encode("latin-1")
+            with open(refp, "wb") as f:
+                f.write(ref_latin.encode("latin-1"))
+            with open(l10p, "wb") as f:
+                f.write(l10b)
+            J.append({"fmt": fmt, "fname": fname, "rel": rel, "refp": refp, "l10p": l10p, "l10b": l10b, "merge": bool(with_merge),
+                      "reff": File(refp, rel, locale=None), "l10f": File(l10p, rel, locale="de")})
+        _sax.make_parser = lambda *a, **k: _RecParser(_real_make_parser(*a, **k), xml_log)
+        content_mod.shutil, content_mod.codecs = _Shutil(log), _Codecs(log)
+        # ---- the session
+        reset_junk(0)
+        cc = ContentComparer()
+        cc.observers.append(Observer())
+        for j in J:
+            j["junk0"] = junk_state()
+            j["mergep"] = os.path.join(root, "merge", j["rel"]) if j["merge"] else None
+            try:
+                cc.compare(j["reff"], j["l10f"], j["mergep"])
+                j["compare"] = "ok"
+            except Exception as e:
+                j["compare"] = "raise " + type(e).__name__
+                j["compare_exc"] = exc_info(e)
+        try:
+            rep = cc.observers.toJSON()
+            lm = _leaf_map(rep)
+            outs = [merge_outcome(log, j["mergep"], j["refp"], j["l10p"], j["l10b"]) for j in J]
+            res["report"] = show_report(rep, "&".join(outs))
+            res["summary"] = {("" if k is None else k): v for k, v in rep["summary"].items()}
+        except Exception as e:
+            res["report"] = "raise " + type(e).__name__
+            res["report_exc"] = exc_info(e)
+            lm, outs, rep = {}, ["?"] * len(J), {"summary": {}}
+        raised = [i for i, j in enumerate(J) if j["compare"] != "ok"]
+        if raised:
+            res["report"] = "%s at %d" % (J[raised[0]]["compare"], raised[0])
+        # ---- the same comparisons, each by a fresh comparer (junk counters as the session had them at that point)
+        for i, j in enumerate(J):
+            items = lm.get(j["rel"], [])
+            j["leaf"] = _show_items(items) if all(isinstance(it, dict) and len(it) == 1 for it in items) else repr(items)
+            j["shape"] = shape_errors_details(items)
+            j["merge_out"] = outs[i]
+            set_junk_state(j["junk0"])
+            fc = ContentComparer()
+            fc.observers.append(Observer())
+            mp = os.path.join(root, "mergeF", j["rel"]) if j["merge"] else None
+            fr = {}
+            try:
+                fc.compare(j["reff"], j["l10f"], mp)
+                fr["compare"] = "ok"
+            except Exception as e:
+                fr["compare"] = "raise " + type(e).__name__
+            try:
+                frep = fc.observers.toJSON()
+                fr["leaf"] = _show_items(_leaf_map(frep).get(j["rel"], []))
+                fr["summary"] = {("" if k is None else k): v for k, v in frep["summary"].items()}
+                fr["merge_out"] = merge_outcome(log, mp, j["refp"], j["l10p"], j["l10b"])
+            except Exception as e:
+                fr["leaf"] = "raise " + type(e).__name__
+            j["fresh"] = fr
+            if "compare_exc" in j:
+                j["compare_exc"]["entity_junk_clash"] = entity_junk_clash(j["fname"], j["refp"], j["l10p"], j["junk0"])
+        content_mod.shutil, content_mod.codecs = saved
+        # ---- oracle by construction, per file
+        for j in J:
+            try:
+                j["ufffd_missing"] = _ufffd_missing(j["fname"], j["refp"], j["l10p"], lm.get(j["rel"], [])) if j["compare"] == "ok" else []
+            except Exception as e:
+                j["ufffd_missing"] = []
+                j["oracle_exc"] = exc_info(e)
+        # ---- ONE linter over all localized files
+        states = {}
+        refmap = {j["l10p"]: (j["refp"] if lr else None) for j, lr in zip(J, lint_refs)}
+
+        def get_ref(path):
+            states[path] = junk_state()
+            return refmap[path], None
+        reset_junk(0)
+        lint = {}
+        try:
+            results = L10nLinter().lint([j["l10p"] for j in J], get_ref)
+            res["lint"] = "ok"
+            for r in results:
+                lint.setdefault(r.get("path"), []).append(r)
+        except Exception as e:
+            res["lint"] = "raise " + type(e).__name__
+            res["lint_exc"] = exc_info(e)
+            results = []
+        res["lint_shape"] = []
+        for r in results:
+            if r.get("level") not in ("error", "warning"):
+                res["lint_shape"].append("lint level %r" % (r.get("level"),))
+            if not isinstance(r.get("message"), str):
+                res["lint_shape"].append("lint message is not text: %r" % (r.get("message"),))
+            for f in ("lineno", "column"):
+                if not isinstance(r.get(f), int) or isinstance(r.get(f), bool):
+                    res["lint_shape"].append("lint %s is not an integer: %r" % (f, r.get(f)))
+            if r.get("path") not in refmap:
+                res["lint_shape"].append("lint result for a file that was not linted: %r" % (r.get("path"),))
+        for j in J:
+            try:
+                j["lint"] = _show_lint(lint.get(j["l10p"], [])) if res["lint"] == "ok" else res["lint"]
+            except Exception as e:
+                j["lint"] = "malformed " + type(e).__name__
+            set_junk_state(states.get(j["l10p"], (0, None)))
+            try:
+                j["lint_fresh"] = _show_lint(list(L10nLinter().lint_file(j["l10p"], refmap[j["l10p"]], None)))
+            except Exception as e:
+                j["lint_fresh"] = "raise " + type(e).__name__
+                j["lint_fresh_exc"] = exc_info(e)
+        # ---- the model's inputs
+        _sax.make_parser = _real_make_parser
+        ents = []
+        for j, lr in zip(J, lint_refs):
+            j["ref_text"] = read_text(j["fname"], j["refp"])
+            j["l10n_text"] = read_text(j["fname"], j["l10p"])
+            try:
+                if j["fmt"] == "ftl":
+                    classes = _EqClasses()
+                    _, j["ref_body"] = ftl_body_tokens(j["refp"], classes)
+                    _, j["l10n_body"] = ftl_body_tokens(j["l10p"], classes)
+                elif j["fmt"] == "android":
+                    _, j["ref_items"] = android_item_tokens(j["refp"])
+                    _, j["l10n_items"] = android_item_tokens(j["l10p"])
+                elif j["fmt"] == "dtd":
+                    for pth in (j["refp"], j["l10p"]):
+                        pp = type(parser.getParser(j["fname"]))()
+                        pp.readFile(pth)
+                        ents.extend(pp.walk(only_localizable=True))
+            except Exception as e:
+                j["tokens_exc"] = exc_info(e)
+        res["ext"] = ext_tokens(xml_log, ents) if any(j["fmt"] == "dtd" for j in J) else ""
+        keep = ("fmt", "rel", "merge", "junk0", "compare", "compare_exc", "leaf", "shape", "merge_out", "fresh", "ufffd_missing", "oracle_exc",
+                "lint", "lint_fresh", "lint_fresh_exc", "ref_text", "l10n_text", "ref_body", "l10n_body", "ref_items", "l10n_items", "tokens_exc")
+        res["jobs"] = [{k: j[k] for k in keep if k in j} for j in J]
+        res["lint_refs"] = [bool(x) for x in lint_refs]
+    finally:
+        _sax.make_parser = _real_make_parser
+        content_mod.shutil, content_mod.codecs = saved
+        reset_junk(0)
+        shutil.rmtree(root, ignore_errors=True)
+    return res
